@@ -26,6 +26,9 @@ Optional keys (how the SAME batch is handed to the library; absent = the plain f
   "cost_type": "float"|"int"|"numpy", "tok_dtype": [ref dtype, hyp dtype],
   "layout": [ref layout, hyp layout] from "contig"|"tview"|"strided"|"expand",
   "alias": bool (hyp IS the ref tensor), "default_dtype": "float64"|None.
+  "tok_dtype" may name two DIFFERENT dtypes: ref holds only values of the first, hyp only values of the second, the
+  eos may lie outside either ("alias_bits": the modulus under which `alias_tokens` made different tokens congruent;
+  informational). Big cases: gen["alias"] = {"bits", "side", "k", "p", optional "eos_out"} (see `expand_big`).
   "life" (module entry only): {"init": {attribute: value the module is CONSTRUCTED with; it is reassigned
   to the case's value before the observed call}, "warm": "none"|"same"|"other" (a call between construction
   and reassignment, on this batch / on one of another shape), "post": bool (one more call afterwards, another
@@ -118,6 +121,53 @@ DTYPE_RANGE = {"int64": (-2 ** 63, 2 ** 63 - 1), "int32": (-2 ** 31, 2 ** 31 - 1
                "int16": (-2 ** 15, 2 ** 15 - 1), "int8": (-128, 127), "uint8": (0, 255)}
 WARN_KINDS = (("in ref did not", "no_eos_ref"), ("in hyp did not", "no_eos_hyp"),
               ("ref contains empty transcripts", "empty_ref"))
+DTYPES = ["uint8", "int8", "int16", "int32", "int64"]
+DT_BITS = {"int64": 64, "int32": 32, "int16": 16, "int8": 8, "uint8": 8}
+SIG_EOSWRAP = "C01.eos_outside_token_dtype"
+
+
+def wrap_to(x, dtype_name):
+    """x reduced into the range of an integer dtype modulo 2^bits (what a cast does)."""
+    lo, hi = DTYPE_RANGE[dtype_name]
+    return (x - lo) % (hi - lo + 1) + lo
+
+
+def alias_combos():
+    """(ref dtype, hyp dtype, b): every ORDERED pair of integer dtypes together with every modulus 2^b,
+    b in {8, 16, 32}, under which two different integers that the two tensors can hold are congruent
+    (some side is wider than b bits, or the pair is uint8 / int8: 200 and -56)."""
+    out = []
+    for dr in DTYPES:
+        for dh in DTYPES:
+            for b in (8, 16, 32):
+                if b < max(DT_BITS[dr], DT_BITS[dh]) or (b == 8 and {dr, dh} == {"uint8", "int8"}):
+                    out.append((dr, dh, b))
+    return out
+
+
+def congruent(r, M, lo, hi, rng, used=(), nonzero_from=None):
+    """Some values r + k*M inside [lo, hi] that are not in `used` (k at both ends of what fits, around 0,
+    and one at random); with `nonzero_from` = v: other values than v."""
+    kmin = -((r - lo) // M)
+    kmax = (hi - r) // M
+    if kmin > kmax:
+        return []
+    ks = {kmin, kmax, rng.randint(kmin, kmax)} | {k for k in (0, 1, -1, 2, -2, 3) if kmin <= k <= kmax}
+    return sorted(v for v in (r + k * M for k in ks) if v not in used and v != nonzero_from)
+
+
+def py_prefix_levs(rc, hc, ins, dl, sb):
+    """Weighted Levenshtein distance between rc and every prefix of hc (plain two-row DP on Fractions): only
+    used to recognise the SPECIFIC wrong numbers of a listed finding, never as the oracle."""
+    row = [j * dl for j in range(len(rc) + 1)]
+    out = [row[-1]]
+    for h in hc:
+        new = [row[0] + ins]
+        for j in range(1, len(rc) + 1):
+            new.append(min(row[j] + ins, new[j - 1] + dl, row[j - 1] + (0 if rc[j - 1] == h else sb)))
+        row = new
+        out.append(row[-1])
+    return out
 
 
 def _is_default(v, d):
@@ -173,12 +223,18 @@ def make_tensor(cols, L, bf, dtype_name, layout, garbage):
     import torch
     dtype = getattr(torch, dtype_name)
     N = len(cols)
+    lo, hi = DTYPE_RANGE[dtype_name]
+    garbage = [g for g in garbage if lo <= g <= hi] or [0]
     if torch.is_tensor(cols):  # a generated (N, L) int64 batch (the large-problem stream)
-        m = cols.to(dtype).reshape(N, L)
-        same = N >= 1 and bool((m == m[:1]).all())
+        m64 = cols.reshape(N, L)
+        same = N >= 1 and bool((m64 == m64[:1]).all())
     else:
-        m = torch.tensor(cols, dtype=dtype).reshape(N, L)
+        m64 = torch.tensor(cols, dtype=torch.int64).reshape(N, L)
         same = N >= 1 and all(c == cols[0] for c in cols)
+    if m64.numel() and not (int(m64.min()) >= lo and int(m64.max()) <= hi):
+        # (a cast would wrap silently: the harness never hands the library a token the tensor cannot hold)
+        raise AssertionError(f"harness: token outside the range of {dtype_name}")
+    m = m64.to(dtype)
     t = m if bf else m.t()
     if layout == "expand" and same:
         col = m[0].clone().reshape(L)
@@ -321,6 +377,9 @@ def call_impl(case, ref_cols, hyp_cols, R, H, light=False, tensor_out=False):
     dts = case.get("tok_dtype") or ["int64", "int64"]
     lay = case.get("layout") or ["contig", "contig"]
     garbage = garbage_tokens(case)
+    g_lo = max(DTYPE_RANGE[d][0] for d in dts)
+    g_hi = min(DTYPE_RANGE[d][1] for d in dts)
+    fill_other = next((g for g in garbage if g_lo <= g <= g_hi), 0)  # (fits both tensors)
     ref, ref_base = make_tensor(ref_cols, R, bf, dts[0], lay[0], garbage)
     if case.get("alias") and R == H and not torch.is_tensor(ref_cols) and ref_cols == hyp_cols:
         hyp, hyp_base = ref, ref_base
@@ -349,7 +408,7 @@ def call_impl(case, ref_cols, hyp_cols, R, H, light=False, tensor_out=False):
                         bad = module_vs_functional(mod, mode, plain_init, case, ref_cols, hyp_cols, R, H)
                     elif life.get("warm") == "other":
                         bad = module_vs_functional(mod, mode, plain_init, case,
-                                                   *other_batch(ref_cols, hyp_cols, R, H, garbage[0]))
+                                                   *other_batch(ref_cols, hyp_cols, R, H, fill_other))
                     if bad:
                         extra.setdefault("life_calls", []).append("call before the reassignment, " + bad)
                 for k in life["init"]:
@@ -384,7 +443,7 @@ def call_impl(case, ref_cols, hyp_cols, R, H, light=False, tensor_out=False):
         with _DefaultDtype(case.get("default_dtype")), warnings.catch_warnings():
             warnings.simplefilter("ignore")
             plain = {k: assigned_value(k, values[k]) for k in ORDER[mode]}
-            bad = module_vs_functional(mod, mode, plain, case, *other_batch(ref_cols, hyp_cols, R, H, garbage[0]))
+            bad = module_vs_functional(mod, mode, plain, case, *other_batch(ref_cols, hyp_cols, R, H, fill_other))
             if bad:
                 extra.setdefault("life_calls", []).append("call after the observed one, " + bad)
     if not light:
@@ -429,7 +488,7 @@ def coprime_up(n):
 
 def expand_big(case):
     """The batch of a big case as two int64 tensors (N, R), (N, H). Body tokens 0..A-1; an eos that occurs
-    in the data is the value A, placed at a per-column length with random filler (further eos included)
+    in the data is the value A (gen["alias"]["eos_out"]: A + k * 2^bits on one side, see below), placed at a per-column length with random filler (further eos included)
     after it. The hypothesis is a noisy, shifted window of the reference (so the cheapest script mixes
     deletions on both sides with substitutions / insertions). The first 4 and the LAST 16 columns always
     hold long sequences, the very last one full-length ones."""
@@ -437,10 +496,12 @@ def expand_big(case):
     import torch
     g = case["gen"]
     N, R, H, eos = case["N"], case["R"], case["H"], case["eos"]
-    ck = (g["seed"], g["alphabet"], g["noise"], N, R, H, eos, bool(g.get("mix")))
+    al = g.get("alias")
+    ck = (g["seed"], g["alphabet"], g["noise"], N, R, H, eos, bool(g.get("mix")), repr(sorted(al.items())) if al else None)
     if ck in _BIG_CACHE:
         return _BIG_CACHE[ck]
     A = g["alphabet"]
+    eos_in = eos is not None and (eos == A or bool(al and al.get("eos_out")))
     rs = np.random.default_rng([g["seed"], N, R, H])
     ref = rs.integers(0, A, (N, R), dtype=np.int64)
     lo = max(R - H, 0) if R > H else min(R, 2)
@@ -452,7 +513,7 @@ def expand_big(case):
     else:
         hyp = fresh
     hyp = np.where(rs.random((N, H)) < g["noise"], rs.integers(0, A, (N, H), dtype=np.int64), hyp)
-    if eos is not None and eos == A:
+    if eos_in:
         for arr, L in ((ref, R), (hyp, H)):
             ln = rs.integers(0, L + 1, N, dtype=np.int64)
             u = rs.random(N)
@@ -472,7 +533,22 @@ def expand_big(case):
             pos = np.arange(L, dtype=np.int64)[None, :]
             garb = rs.integers(0, A + 1, (N, L), dtype=np.int64)
             arr[...] = np.where(pos > ln[:, None], garb, arr)
-            arr[pos == ln[:, None]] = eos
+            arr[pos == ln[:, None]] = A
+    if al:
+        # tokens that are DIFFERENT integers but congruent modulo 2^bits: on one side (the tensor whose dtype can
+        # hold them) a fraction p of the positions - body tokens, end markers and filler alike - holds
+        # t + k * 2^bits instead of t. With "eos_out" the end-of-sequence value itself is A + k * 2^bits: that
+        # side's end markers are rewritten to it, while the other side (whose dtype cannot hold it) has no end
+        # marker at all and keeps A as an ordinary token.
+        ra = np.random.default_rng([g["seed"], N, R, H, 77])
+        side = ref if al["side"] == "ref" else hyp
+        off = al["k"] * 2 ** al["bits"]
+        m = ra.random(side.shape) < al["p"]
+        if side.size:
+            m[N - 1, side.shape[1] // 2] = True
+        side[...] = np.where(m, side + off, side)
+        if al.get("eos_out"):
+            side[side == A] = eos
     out = (torch.from_numpy(np.ascontiguousarray(ref)), torch.from_numpy(np.ascontiguousarray(hyp)))
     _BIG_CACHE.clear()
     _BIG_CACHE[ck] = out
@@ -546,7 +622,18 @@ class C01(PropertyCheck):
             "pairs in the first 4 and LAST 16 columns; see `input_distribution` keys 'big:*'). Three quarters of the "
             "batches are then handed over in a non-plain form drawn from: tokens renamed injectively to values "
             "around 2^24 / 2^31 / 2^53 / the int64 limits / -100 / negatives; int32 / int16 / int8 / uint8 / mixed token "
-            "dtypes; transposed-view, strided-with-offset (inside a garbage-filled storage) and expanded (stride 0) "
+            "dtypes; CONGRUENT TOKENS IN MIXED DTYPES (`alias_tokens`, 40% of the non-plain batches of every stream, "
+            "both entries, both modes): ref and hyp in the next (ref dtype, hyp dtype, b) of a shuffled cycle through "
+            "all 48 combinations of an ordered pair of {uint8,int8,int16,int32,int64} with a modulus 2^b, b in "
+            "{8,16,32}, that the pair can express; tokens renamed injectively into 1..3 residue classes mod 2^b, each "
+            "token to a value every tensor it occurs in can hold (so hyp-only / ref-only tokens and an eos that occurs "
+            "in one tensor or in none lie OUTSIDE the other tensor's dtype and are congruent to its tokens: 7 / 263 / "
+            "65543 / 7+2^32, 200 / -56), then single positions replaced by another member of their class (an ordinary "
+            "token congruent to the eos or to the token it faces); 'alias:*' and 'dtype_pair=*' keys. Big stream: "
+            "55% of the large batches take the next combination with a side wider than b, that side holds t + k*2^b at a "
+            "fraction 0.02 / 0.1 / 0.3 of its positions (k = +-1, 2, the largest / smallest that fits), in 40% of those "
+            "with an eos in the data the eos itself is A + k*2^b (outside the other tensor's dtype, which keeps A as an "
+            "ordinary token); transposed-view, strided-with-offset (inside a garbage-filled storage) and expanded (stride 0) "
             "tensors; hyp the same tensor object as ref; warn on/off; positional / keyword / defaults-omitted / mixed "
             "calls and constructors; python-int and numpy costs; padding from {-100,-1,0,1,7,-2^24,2^31+5, eos, a "
             "token}; float64 default dtype. MODULE entry: in about half of the (non-plain) module cases the object has a "
@@ -571,6 +658,13 @@ class C01(PropertyCheck):
         "any number: the model never sees them; omitted arguments rely on the defaults documented at the pinned "
         "tree (edit_distance: include_eos=False; prefix_edit_distances: include_eos=True, padding=-100; costs 1.0; "
         "norm / batch_first / exclude_last False; warn=True)",
+        "token VALUES are free integers: the two token tensors may have different integer dtypes, each holds only "
+        "values of its own range, and equality of tokens (and of a token with the eos) is equality of integers - never "
+        "of their residues modulo 2^8 / 2^16 / 2^32; the Lean model and oracle work on Int and get the final values. An "
+        "eos outside a tensor's dtype simply does not occur in that tensor (finding C01.eos_outside_token_dtype: the "
+        "pinned code wraps it; recognised only when every reported number of the batch equals the distance of the "
+        "sequences cut at the wrapped value - python DP used for that recognition only - and the warnings are those of "
+        "that cut)",
         "also checked on every non-re-run call: inputs (and the storage around a strided view) are not written to, "
         "a module carries the options it was constructed with (attributes, extra_repr), a second call of the same "
         "module gives the same tensor, and the library warnings are exactly the documented ones (none with "
@@ -745,33 +839,146 @@ class C01(PropertyCheck):
             c["padding"] = rng.choice(new)
         return c
 
+    def _next_combo(self, rng, ok=lambda t: True):
+        """The next (ref dtype, hyp dtype, modulus bits) of a shuffled cycle through `alias_combos()`: every
+        ordered dtype pair x modulus comes round every 48 draws, whatever else is drawn independently."""
+        if not getattr(self, "_combos", None):
+            self._combos = alias_combos()
+            rng.shuffle(self._combos)
+        for _ in range(len(self._combos)):
+            t = self._combos.pop(0)
+            self._combos.append(t)
+            if ok(t):
+                return t
+        return None
+
+    def alias_tokens(self, rng, case):
+        """Hand ref and hyp over in the dtypes (dr, dh) of the next combination and rename / perturb the tokens so
+        that DIFFERENT integers which are congruent modulo 2^b meet: (1) an injective renaming into few residue
+        classes mod 2^b - a token is given a value that every tensor it occurs in can hold, so a token that only
+        occurs in the wider tensor (or an eos that occurs in neither) may lie outside the narrower tensor's range
+        and wrap onto one of ITS tokens under a cast; (2) at some positions of a tensor that has room, the token v
+        is replaced by another member v + k * 2^b of its class (an ordinary token congruent to a reference token,
+        or to the eos). The expected numbers come from the final integers (Lean model and oracle work on Int)."""
+        dr, dh, b = self._next_combo(rng)
+        M = 2 ** b
+        ranges = {"ref": DTYPE_RANGE[dr], "hyp": DTYPE_RANGE[dh]}
+        occ = {"ref": {x for col in case["ref"] for x in col}, "hyp": {x for col in case["hyp"] for x in col}}
+        eos = case["eos"]
+        toks = occ["ref"] | occ["hyp"] | ({eos} if eos is not None else set())
+
+        def room(t):
+            lo, hi = -2 ** 63, 2 ** 63 - 1
+            for side in ("ref", "hyp"):
+                if t in occ[side]:
+                    lo, hi = max(lo, ranges[side][0]), min(hi, ranges[side][1])
+            return lo, hi
+
+        order = sorted(toks, key=lambda t: (room(t)[1] - room(t)[0], rng.random()))
+        residues, used, m = [], set(), {}
+        max_classes = rng.choice([1, 2, 2, 3])
+        pool = [0, 1, 7, 100, 127, 128, 200, 255, M - 1, M // 2, M // 2 - 1, M - 100]
+        for t in order:
+            lo, hi = room(t)
+            v = None
+            if not (len(residues) < max_classes and rng.random() < 0.3):
+                for r in rng.sample(residues, len(residues)):
+                    cands = congruent(r, M, lo, hi, rng, used)
+                    if cands:
+                        v = rng.choice(cands)
+                        break
+            for attempt in range(60):
+                if v is not None:
+                    break
+                r = (rng.choice(pool) if attempt < 8 else rng.randrange(M)) % M
+                if r in residues:
+                    continue
+                cands = congruent(r, M, lo, hi, rng, used)
+                if cands:
+                    residues.append(r)
+                    v = rng.choice(cands)
+            if v is None:
+                return None
+            used.add(v)
+            m[t] = v
+        c = dict(case)
+        c["ref"] = [[m[x] for x in col] for col in case["ref"]]
+        c["hyp"] = [[m[x] for x in col] for col in case["hyp"]]
+        if eos is not None:
+            c["eos"] = m[eos]
+        # (2) other members of the same residue class, position by position, where the tensor can hold them
+        n_pos = sum(len(col) for col in c["ref"] + c["hyp"])
+        q = rng.choice([0.0, 0.08, 0.2, 0.5]) if n_pos else 0.0
+        forced = rng.randrange(n_pos) if (n_pos and q > 0) else -1
+        i = 0
+        for side in ("ref", "hyp"):
+            lo, hi = ranges[side]
+            for col in c[side]:
+                for j in range(len(col)):
+                    if i == forced or rng.random() < q:
+                        cands = congruent(col[j] % M, M, lo, hi, rng, nonzero_from=col[j])
+                        if cands:
+                            col[j] = rng.choice(cands)
+                    i += 1
+        if case["mode"] == "prefix" and used and rng.random() < 0.25:
+            c["padding"] = rng.choice(sorted(used))
+        c["tok_dtype"] = [dr, dh]
+        c["alias_bits"] = b
+        return c
+
+    def _big_alias(self, rng, c):
+        """Dtype pair + congruent tokens for a big case (see `expand_big`): the next combination in which one side is
+        wider than the modulus (that side gets the shifted tokens; base tokens 0..A+1 fit every dtype)."""
+        wide = lambda t: [s for s, d in (("ref", t[0]), ("hyp", t[1])) if DT_BITS[d] > t[2]]
+        dr, dh, b = self._next_combo(rng, lambda t: bool(wide(t)))
+        side = rng.choice(wide((dr, dh, b)))
+        bits = DT_BITS[dr if side == "ref" else dh]
+        kmax, kmin = 2 ** (bits - b - 1) - 1, -2 ** (bits - b - 1)
+        k = rng.choice(sorted({x for x in (1, -1, 2, kmax, kmin) if kmin <= x <= kmax and x != 0}))
+        al = {"bits": b, "side": side, "k": k, "p": rng.choice([0.02, 0.1, 0.3])}
+        A = c["gen"]["alphabet"]
+        other = dh if side == "ref" else dr
+        lo, hi = DTYPE_RANGE[other]
+        if c["eos"] == A and not (lo <= A + k * 2 ** b <= hi) and rng.random() < 0.4:
+            al["eos_out"] = True
+            c["eos"] = A + k * 2 ** b
+        c["gen"]["alias"] = al
+        c["tok_dtype"] = [dr, dh]
+
     def decorate(self, rng, case, p_plain=0.25):
         """Pick the presentation options. With probability p_plain the plain form (positional call,
         contiguous int64 tensors, float costs, warn=False) is kept."""
         if case["kind"] != "batch" or rng.random() < p_plain:
             return case
-        c = self.relabel(rng, case) if rng.random() < 0.4 else dict(case)
-        toks = [x for col in c["ref"] + c["hyp"] for x in col] + ([c["eos"]] if c["eos"] is not None else [])
-        fits = [d for d, (lo, hi) in DTYPE_RANGE.items() if all(lo <= x <= hi for x in toks)]
-        u = rng.random()
-        if u < 0.5 or fits == ["int64"]:
-            dts = ["int64", "int64"]
-        elif u < 0.8:
-            d = "int32" if "int32" in fits else "int64"
-            dts = [d, d]
-        elif u < 0.9:
-            d = rng.choice(fits)
-            dts = [d, d]
-        else:
-            dts = [rng.choice(fits), rng.choice(fits)]
-        c["tok_dtype"] = dts
+        same_tensor = case["R"] == case["H"] and case["ref"] == case["hyp"] and rng.random() < 0.7
+        c = None
+        if not same_tensor and rng.random() < 0.4:
+            # the two token tensors in (possibly) different integer dtypes, holding different integers that are
+            # congruent modulo 2^8 / 2^16 / 2^32 (changes which tokens are equal: part of the generator)
+            c = self.alias_tokens(rng, case)
+        if c is None:
+            c = self.relabel(rng, case) if rng.random() < 0.4 else dict(case)
+            toks = [x for col in c["ref"] + c["hyp"] for x in col] + ([c["eos"]] if c["eos"] is not None else [])
+            fits = [d for d, (lo, hi) in DTYPE_RANGE.items() if all(lo <= x <= hi for x in toks)]
+            u = rng.random()
+            if u < 0.6 or fits == ["int64"]:
+                dts = ["int64", "int64"]
+            elif u < 0.8:
+                d = "int32" if "int32" in fits else "int64"
+                dts = [d, d]
+            elif u < 0.9:
+                d = rng.choice(fits)
+                dts = [d, d]
+            else:
+                dts = [rng.choice(fits), rng.choice(fits)]
+            c["tok_dtype"] = dts
         c["layout"] = [rng.choice(["contig", "contig", "tview", "strided", "expand"]) for _ in range(2)]
         c["warn"] = rng.random() < 0.4
         c["call"] = rng.choice(STYLES)
         c["ctor"] = rng.choice(STYLES)
         integral = all(Fraction(c[k]).denominator == 1 and Fraction(c[k]) < 2 ** 31 for k in ("ins", "del", "sub"))
         c["cost_type"] = rng.choice(["float", "int" if integral else "float", "numpy" if c["entry"] == "module" else "float"])
-        if c["R"] == c["H"] and c["ref"] == c["hyp"] and rng.random() < 0.7:
+        if same_tensor and c["tok_dtype"][0] == c["tok_dtype"][1]:
             c["alias"] = True
         if rng.random() < 0.05:
             c["default_dtype"] = "float64"
@@ -863,7 +1070,13 @@ class C01(PropertyCheck):
         c["ctor"] = rng.choice(STYLES)
         lays = ["contig", "contig", "tview"] + (["strided"] if N * (R + H + 1) <= 2 ** 21 else [])
         c["layout"] = [rng.choice(lays), rng.choice(lays)]
-        c["tok_dtype"] = rng.choice([["int64", "int64"], ["int64", "int64"], ["int32", "int32"], ["int16", "int64"]])
+        u = rng.random()
+        if u < 0.35:
+            c["tok_dtype"] = ["int64", "int64"]
+        elif u < 0.45:
+            c["tok_dtype"] = rng.choice([["int32", "int32"], ["int16", "int64"], ["uint8", "int8"]])
+        else:
+            self._big_alias(rng, c)
         if c["entry"] == "module" and (rng.random() < 0.55 or family == "threshold"):
             c["life"] = self.make_life(rng, c)
         return c
@@ -1000,6 +1213,7 @@ class C01(PropertyCheck):
             triples = [["1", "1", "1"], ["2", "2", "2"], ["1/2", "1", "3/2"], ["3", "1/4", "2"], ["1", "4", "1/2"]]
             n_random, maxlen, exh_len = 30000, 10, 3
         n_long, n_wide, n_alias = {"quick": (40, 12, 40), "thorough": (600, 100, 400)}.get(tier, (900, 150, 600))
+        self._combos = None
         yield from self.malformed_cases()
         for c in self._stream(rng, tier, triples, n_random, maxlen, exh_len, n_long, n_wide, n_alias):
             yield self.decorate(rng, c)  # (a big case carries its presentation already)
@@ -1120,12 +1334,16 @@ class C01(PropertyCheck):
             parts = [canon(call_impl(case, ref[lo:hi], hyp[lo:hi], R, H, light=True, tensor_out=True)[0])
                      for lo, hi in ((0, a), (a, N))]
             res["split"] = diff(o, torch.cat(parts, 0), list(range(N)), f"batch cut into columns [0, {a}) and [{a}, {N})")
-        res["facts"] = {
-            "ref_no_eos": bool(case["eos"] is not None and (ref != case["eos"]).all(1).any()),
-            "hyp_no_eos": bool(case["eos"] is not None and (hyp != case["eos"]).all(1).any()),
-            "empty_ref": bool(R == 0 or (case["eos"] is not None and not case["include_eos"] and R > 0
-                                         and (ref[:, 0] == case["eos"]).any())),
+        facts = lambda er, eh: {
+            "ref_no_eos": bool(er is not None and (ref != er).all(1).any()),
+            "hyp_no_eos": bool(eh is not None and (hyp != eh).all(1).any()),
+            "empty_ref": bool(R == 0 or (er is not None and not case["include_eos"] and R > 0
+                                         and (ref[:, 0] == er).any())),
         }
+        res["facts"] = facts(case["eos"], case["eos"])
+        w = self._eos_as_compared(case)
+        if w:
+            res["facts_wrapped"] = facts(*w)  # (only to recognise the listed finding SIG_EOSWRAP)
         return res
 
     def _run_malformed(self, case):
@@ -1212,6 +1430,9 @@ class C01(PropertyCheck):
         if impl["dtype"] != "torch.float32":
             out.append(f"dtype {impl['dtype']}")
         names = impl["sample"] if case["kind"] == "big" else range(len(impl["vals"]))
+        if model.get("module") != (case["entry"] == "module"):
+            out.append(f"driver went through the module model: {model.get('module')}, entry {case['entry']}")
+        n_before = len(out)
         for n, iv, mc in zip(names, impl["vals"], model["cols"]):
             mv = mc["model"]
             if mv is None:
@@ -1226,8 +1447,6 @@ class C01(PropertyCheck):
                     out.append(f"col {n}: impl={iv} model={mv} (float32: {want})")
         if len(impl["vals"]) != len(model["cols"]):
             out.append("number of columns differs")
-        if model.get("module") != (case["entry"] == "module"):
-            out.append(f"driver went through the module model: {model.get('module')}, entry {case['entry']}")
         # the tensor-level model (whole batch, the layout of the call) against the tensor as returned
         tm = model.get("tensor")
         if tm is not None:
@@ -1241,6 +1460,12 @@ class C01(PropertyCheck):
                 want = [[fs(f32round(Fraction(v))) for v in row] for row in tm["vals"]]
                 if impl.get("raw") != want:
                     out.append(f"tensor-level model (native layout): impl={impl.get('raw')} model={tm['vals']}")
+        if len(out) > n_before and len(impl["vals"]) == len(model["cols"]) and impl["shape"] == self._expected_shape(case):
+            hits = self._eos_wrap_hits(case, impl)
+            if hits and all(k is not False for k in hits):
+                # the listed finding SIG_EOSWRAP (model = repaired behaviour): every reported number is exactly what
+                # the pinned code gives when the eos wraps into a token tensor's dtype; reported by the predicate
+                return out[:n_before]
         return out
 
     def _expect_col(self, case, spec):
@@ -1287,10 +1512,19 @@ class C01(PropertyCheck):
                                 f"{e['position']}" for e in d["first"]))
                     fails.append((f"the same pairs give other numbers when the batch is rearranged ({d['how']}): {what}",
                                   "C01.batch_dependence"))
-        for n, iv, mc in zip(names, impl["vals"], model["cols"]):
+        hits = None
+        for pos, (n, iv, mc) in enumerate(zip(names, impl["vals"], model["cols"])):
             spec = mc["spec"]
             want = self._expect_col(case, spec)
-            if want is not None and iv != want:
+            if want is not None and iv != want and hits is None:
+                hits = self._eos_wrap_hits(case, impl)  # (only computed when a number is wrong)
+            if want is not None and iv != want and hits and hits[pos] is True:
+                w = self._eos_as_compared(case)
+                fails.append((f"column {n}: eos={case['eos']} does not fit the token dtypes {case.get('tok_dtype')}: the "
+                              f"tensors are searched for {w} instead (a python scalar is cast to the tensor's dtype), so "
+                              f"the sequences are cut at ordinary tokens: reported {_brief(iv)}, weighted Levenshtein "
+                              f"says {_brief(want)}", SIG_EOSWRAP))
+            elif want is not None and iv != want:
                 fails.append((f"column {n}: ref'={_brief(spec['ref_cut'])} hyp'={_brief(spec['hyp_cut'])} costs="
                               f"({case['ins']},{case['del']},{case['sub']}): reported {_brief(iv)}, weighted Levenshtein "
                               f"{'per prefix ' if case['mode'] == 'prefix' else ''}says {_brief(want)}", "C01.value"))
@@ -1321,10 +1555,70 @@ class C01(PropertyCheck):
                                       f"the end-of-sequence token changes", "C01.garbage_dependence"))
         return fails + self._presentation_failures(case, impl, model)
 
-    def _expected_warnings(self, case, impl=None):
-        """The documented warnings (docstring of `warn`, items 2 and 3) for this batch."""
+    # -- the listed finding SIG_EOSWRAP: `tok.eq(eos)` casts a python scalar to the tensor's dtype, so an eos that a
+    # narrow token tensor cannot hold is searched for modulo 2^bits. Recognised only by its exact numbers.
+    def _eos_as_compared(self, case):
+        """[what the ref tensor is searched for, what the hyp tensor is searched for] at the pinned tree when the
+        eos lies outside a tensor's dtype; None when it fits both (nothing to recognise)."""
+        eos = case.get("eos")
+        if eos is None:
+            return None
+        dts = case.get("tok_dtype") or ["int64", "int64"]
+        w = [wrap_to(eos, d) for d in dts]
+        return None if w == [eos, eos] else w
+
+    def _wrapped_col(self, case, r, h, w):
+        """The numbers of one column if ref is cut at w[0] and hyp at w[1] (tokens themselves compared exactly),
+        with the code's 0/1 convention for an empty reference under norm; the format of `_expect_col`."""
+        inc = case["include_eos"]
+        rc, hc = r[: seq_len(r, w[0], inc)], h[: seq_len(h, w[1], inc)]
+        levs = py_prefix_levs(rc, hc, *(Fraction(case[k]) for k in ("ins", "del", "sub")))
+        rl, hl = len(rc), len(hc)
+        if case["mode"] == "scalar":
+            if not case["norm"]:
+                return fs(levs[-1])
+            return fs(f32round(levs[-1] / rl) if rl else Fraction(1 if hl > 0 else 0))
+        valid = hl + (0 if case["exclude_last"] else 1)
+        out = []
+        for k in range(n_rows(case)):
+            if k >= valid:
+                out.append(fs(f32round(case["padding"])))
+            elif case["norm"]:
+                out.append(fs(f32round(levs[k] / rl) if rl else Fraction(0 if k == 0 else 1)))
+            else:
+                out.append(fs(levs[k]))
+        return out
+
+    def _eos_wrap_hits(self, case, impl):
+        """Per reported column: True = the wrapped eos cuts this pair elsewhere than the real eos AND the reported
+        numbers are exactly those of the wrapped cut; None = the wrapped eos changes nothing for this pair (and its
+        numbers are right); False = something else. [] when the eos fits both dtypes."""
+        w = self._eos_as_compared(case)
+        if not w or "vals" not in impl:
+            return []
+        if getattr(self, "_hits_cache", (None, None))[0] is impl:
+            return self._hits_cache[1]
         if case["kind"] == "big":
-            f = (impl or {}).get("facts") or {}
+            ref, hyp = expand_big(case)
+            pairs = [(ref[i].tolist(), hyp[i].tolist()) for i in impl["sample"]]
+        else:
+            pairs = list(zip(case["ref"], case["hyp"]))
+        eos, inc = case["eos"], case["include_eos"]
+        out = []
+        for (r, h), iv in zip(pairs, impl["vals"]):
+            moved = seq_len(r, w[0], inc) != seq_len(r, eos, inc) or seq_len(h, w[1], inc) != seq_len(h, eos, inc)
+            same = iv == self._wrapped_col(case, r, h, w)
+            out.append(same if moved else (None if same else False))
+        if True not in out:
+            out = []
+        self._hits_cache = (impl, out)
+        return out
+
+    def _expected_warnings(self, case, impl=None, w=None):
+        """The documented warnings (docstring of `warn`, items 2 and 3) for this batch (w: for the end markers w
+        instead of the eos, see `_eos_as_compared`)."""
+        if case["kind"] == "big":
+            f = (impl or {}).get("facts_wrapped" if w else "facts") or {}
             out = set()
             if case.get("warn", False):
                 if case["eos"] is not None and case["include_eos"]:
@@ -1335,13 +1629,14 @@ class C01(PropertyCheck):
         if not case.get("warn", False) or not case["ref"]:
             return []
         eos, inc = case["eos"], case["include_eos"]
+        er, eh = w or (eos, eos)
         out = set()
         if eos is not None and inc:
-            if any(eos not in r for r in case["ref"]):
+            if any(er not in r for r in case["ref"]):
                 out.add("no_eos_ref")
-            if any(eos not in h for h in case["hyp"]):
+            if any(eh not in h for h in case["hyp"]):
                 out.add("no_eos_hyp")
-        if case["norm"] and any(seq_len(r, eos, inc) == 0 for r in case["ref"]):
+        if case["norm"] and any(seq_len(r, er, inc) == 0 for r in case["ref"]):
             out.add("empty_ref")
         return sorted(out)
 
@@ -1357,7 +1652,14 @@ class C01(PropertyCheck):
                           "C01.module_state"))
         for b in impl.get("module_attrs") or []:
             fails.append((f"module does not carry the option it was given: {b}", "C01.module_attrs"))
-        if "warned" in impl and impl["warned"] != self._expected_warnings(case, impl):
+        w = self._eos_as_compared(case)
+        if ("warned" in impl and impl["warned"] != self._expected_warnings(case, impl) and w
+                and impl["warned"] == self._expected_warnings(case, impl, w)):
+            fails.append((f"warn={case.get('warn', False)}: library warnings {impl['warned']} are those of a batch whose "
+                          f"end markers are {w} (eos={case['eos']} wrapped into the token dtypes "
+                          f"{case.get('tok_dtype')}), documented for this batch: "
+                          f"{self._expected_warnings(case, impl)}", SIG_EOSWRAP))
+        elif "warned" in impl and impl["warned"] != self._expected_warnings(case, impl):
             fails.append((f"warn={case.get('warn', False)}: library warnings {impl['warned']}, documented for this "
                           f"batch: {self._expected_warnings(case, impl)}", "C01.warnings"))
         return fails
@@ -1428,6 +1730,8 @@ class C01(PropertyCheck):
         t.append("cost_type=" + case.get("cost_type", "float"))
         dts = case.get("tok_dtype") or ["int64", "int64"]
         t.append("tok_dtype=" + (dts[0] if dts[0] == dts[1] else "mixed"))
+        t.append(f"dtype_pair={dts[0]}/{dts[1]}")
+        t += self._alias_tags(case, dts, {x for c in case["ref"] for x in c}, {x for c in case["hyp"] for x in c})
         lay = case.get("layout") or ["contig", "contig"]
         for which, l, cols in (("ref", lay[0], case["ref"]), ("hyp", lay[1], case["hyp"])):
             if l == "expand" and not (cols and all(c == cols[0] for c in cols)):
@@ -1471,6 +1775,34 @@ class C01(PropertyCheck):
                 self._pairs.add((tuple(rc), tuple(hc), cell))
         return t
 
+    def _alias_tags(self, case, dts, ref_t, hyp_t, pre=""):
+        """Which congruences between DIFFERENT integers the batch holds (what a cast to a narrower type would merge)."""
+        t = []
+        eos = case["eos"]
+        if case.get("alias_bits"):
+            t.append(pre + f"alias:generated_mod_2^{case['alias_bits']}")
+        for b in (8, 16, 32):
+            M = 2 ** b
+            rr = {}
+            for x in ref_t:
+                rr.setdefault(x % M, set()).add(x)
+            if any(rr.get(y % M, set()) - {y} for y in hyp_t):
+                t.append(pre + f"alias:ref_token~hyp_token_mod_2^{b}")
+            if eos is not None and any(x != eos and x % M == eos % M for x in ref_t | hyp_t):
+                t.append(pre + f"alias:token~eos_mod_2^{b}")
+        for which, d, other, toks in (("hyp", dts[1], dts[0], hyp_t), ("ref", dts[0], dts[1], ref_t)):
+            lo, hi = DTYPE_RANGE[other]
+            if any(not lo <= x <= hi for x in toks):
+                t.append(pre + f"alias:{which}_token_outside_the_other_dtype")
+        if eos is not None:
+            for which, d, toks in (("ref", dts[0], ref_t), ("hyp", dts[1], hyp_t)):
+                lo, hi = DTYPE_RANGE[d]
+                if not lo <= eos <= hi:
+                    t.append(pre + f"alias:eos_outside_{which}_dtype")
+                    if wrap_to(eos, d) in toks:
+                        t.append(pre + f"alias:eos_wraps_onto_a_{which}_token")
+        return t
+
     def _life_tags(self, case, pre):
         life = case.get("life") if case["entry"] == "module" else None
         if not life:
@@ -1497,8 +1829,8 @@ class C01(PropertyCheck):
         lg = lambda x: max(int(x), 1).bit_length() - 1
         t = ["big", "big:family=" + case["family"], f"big:mode={case['mode']}", f"big:entry={case['entry']}",
              f"big:batch_first={case['batch_first']}", f"big:norm={case['norm']}",
-             "big:eos=" + ("unset" if case["eos"] is None else "in_data" if case["eos"] == case["gen"]["alphabet"]
-                           else "absent"),
+             "big:eos=" + ("unset" if case["eos"] is None else "in_data" if (
+                 case["eos"] == case["gen"]["alphabet"] or (case["gen"].get("alias") or {}).get("eos_out")) else "absent"),
              "big:costs=" + ("uniform_shortcut" if case["ins"] == case["del"] == case["sub"] else "nonuniform"),
              f"big:(R+1)^2*N>=2^{lg((R + 1) ** 2 * N):02d}", f"big:N*R*H>=2^{lg(N * R * H):02d}"]
         if N >= 2 ** 14:
@@ -1509,6 +1841,15 @@ class C01(PropertyCheck):
             t.append(f"big:H>=2^{lg(H):02d}")
         t.append("big:lean_per_column_model=" + ("run" if big_with_model(case) else "oracle_only"))
         t.append("big:layout=" + "/".join(case.get("layout") or ["contig", "contig"]))
+        dts = case.get("tok_dtype") or ["int64", "int64"]
+        t.append(f"big:dtype_pair={dts[0]}/{dts[1]}")
+        al = case["gen"].get("alias")
+        if al:
+            t.append(f"big:alias:{al['side']}_tokens_shifted_by_k*2^{al['bits']}")
+            t.append("big:alias:k=" + ("1" if al["k"] == 1 else "-1" if al["k"] == -1 else "2" if al["k"] == 2
+                                       else "largest" if al["k"] > 0 else "smallest"))
+            if al.get("eos_out"):
+                t.append("big:alias:eos_outside_the_other_dtype")
         t += self._life_tags(case, "big:")
         if impl and impl.get("warned"):
             t += ["warned:" + k for k in impl["warned"]]
@@ -1634,6 +1975,13 @@ class C01(PropertyCheck):
                 yield dict(case, **{k: plain})
         if case["gen"]["noise"] != 0.0:
             yield dict(case, gen=dict(case["gen"], noise=0.0))
+        al = case["gen"].get("alias")
+        if al:
+            # no congruent tokens at all / fewer of them / the eos back inside both dtypes
+            plain = {k: v for k, v in case["gen"].items() if k != "alias"}
+            yield dict(case, gen=plain, eos=case["gen"]["alphabet"] if al.get("eos_out") else case["eos"])
+            if al["p"] > 0.02:
+                yield dict(case, gen=dict(case["gen"], alias=dict(al, p=0.02)))
 
 
 CHECK = C01()
